@@ -9,8 +9,9 @@
                  all non-ASCII) is escaped the same way, a code from 65536 up as the two escapes of its UTF-16
                  surrogate pair; with ensure_ascii=False everything else (U+0085, U+2028, U+2029, DEL, non-BMP) is
                  written as it is.  A lone surrogate code point is escaped like any other BMP code.
-   Reader side   src/stingray/workbook.py JSONUnpacker.open: name.open(mode='r') (universal newlines,
-                 [Workbook.text_lines]); instance_iter: for line in the_file: json.loads(line): [ndjson_read].
+   Reader side   src/stingray/workbook.py JSONUnpacker.open: name.open(mode='r'), with or without newline='' as the
+                 source says on every run (Gen/CsvOpenParams.ndjson_newline_raw; today without: universal newlines,
+                 [Workbook.text_lines]): [ndjson_lines]; instance_iter: for line in the_file: json.loads(line): [ndjson_read].
                  json.loads: a leading U+FEFF is refused; JSONDecoder.decode skips blank TAB LF CR, scans one value
                  and refuses anything but the same white space after it.
                  _json.c _parse_object_unicode / scanstring_unicode (strict): see [parse_members], [scan_string].
@@ -26,7 +27,8 @@
 From Coq Require Import NArith List Bool Arith.
 Import ListNotations.
 Require Import SR.Base.Res.
-Require SR.Model.Workbook.
+Require SR.Model.Workbook SR.Model.Csv.
+Require Import SR.Gen.CsvOpenParams.
 Open Scope N_scope.
 
 Definition text := list N.
@@ -268,7 +270,11 @@ Fixpoint read_lines (lines : list text) : list doc * outcome unit :=
       end
   end.
 
-Definition ndjson_reader (file : text) : list doc * outcome unit := read_lines (Workbook.text_lines file).
+(* iter(the_file): by the open call of JSONUnpacker.open (Gen/CsvOpenParams.ndjson_newline_raw, read from the source) *)
+Definition ndjson_lines (file : text) : list text :=
+  if ndjson_newline_raw then Csv.raw_lines file else Workbook.text_lines file.
+
+Definition ndjson_reader (file : text) : list doc * outcome unit := read_lines (ndjson_lines file).
 
 (* list(unpacker.instance_iter(name)) *)
 Definition ndjson_read (file : text) : outcome (list doc) :=
